@@ -120,10 +120,33 @@ def _alarm(signum, frame):
     raise _Slow()
 
 
+def constructor_route(case):
+    """The same text through the PyDBML(...) constructor: same exception whitelist."""
+    from pydbml import PyDBML
+    from ..lib import allowed_parse_exceptions
+    text = case['text']
+    kw = {'allow_properties': True} if case.get('allow_properties') else {}
+    try:
+        PyDBML(text, **kw)
+    except allowed_parse_exceptions():
+        return []
+    except RecursionError:
+        return []
+    except Exception as e:  # noqa
+        return [Viol(f'constructor:{exc_key(e)}', f'PyDBML(text) escaped with {type(e).__name__}: {e}', dict(case, route='constructor'), size=len(text))]
+    return []
+
+
+LONG = ['// ' + 'x' * 300, '/* ' + 'y' * 5000 + ' */', 'z' * 300, 'a/' * 200 + 'b' * 300, 'Table ' + 't' * 400 + ' {', '"' + 'q' * 1000 + '"',
+        '// ' + 'é' * 200, 'x' * 70000, '/' + 'd' * 260 + '/schema.dbml', ' ' * 5000, 'Note n { \'' + 'n' * 3000 + '\' }']
+
+
 def evaluate(case, ctx: Ctx = None):
     text = case['text']
     kw = {'allow_properties': True} if case.get('allow_properties') else {}
     viols = []
+    if case.get('route') == 'constructor' or (ctx is not None and case.get('gen', '').startswith(('soup', 'long', 'hole:whole'))):
+        viols += constructor_route(case)
     signal.signal(signal.SIGALRM, _alarm)
     signal.alarm(60)
     try:
@@ -243,6 +266,9 @@ def shard(ctx: Ctx):
             ctx.add(evaluate(dict(text=tpl.replace('§', b), allow_properties=props, gen=f'bare:{hname}'), ctx))
     ctx.exhaustive_arms.append(f'bare literals: {len(BARE)} literals x {len(BARE_HOLES)} value positions')
 
+    for k, t in enumerate(LONG):
+        if k % ctx.nshards == ctx.shard:
+            ctx.add(evaluate(dict(text=t, gen='long'), ctx))
     n = (250 if quick else 2500)
     both = st.one_of(soup(), spaced_soup())
     hyp_run(ctx, 'soup', both, lambda t: evaluate(dict(text=t, gen='soup'), ctx), n)
